@@ -246,7 +246,7 @@ Theorem roles_frame t l o :
   end.
 Proof.
   destruct o as [c d a|c|c v|c a|c a|c f to|c a|c a|c f|c a|c a|c f|c a v|c|c m n s|self result]; try exact I; unfold tstep; cbn [top_ctx run_endpoint].
-  6:{ destruct (tm_pending t =? 0); [reflexivity|]. destruct result; reflexivity. }
+  6:{ destruct (tm_pending t =? 0); [reflexivity|]. unfold deploy_token_callback. destruct result; [destruct (bytes_eqb (tm_token t) [])|]; reflexivity. }
   all: destruct (pay_in l (t_caller c) (t_self c) (t_value c)) as [l1|]; [|reflexivity].
   - unfold give_token. destruct (negb _ || negb _); [reflexivity|]. destruct (negb (only_service t c)); [reflexivity|].
     unfold add_flow_in. destruct (tm_limit t =? 0).
@@ -269,6 +269,13 @@ Qed.
 
 (* once recorded by deployment, the minter role can be granted afresh only by deployInterchainToken,
    which is refused as soon as a token is recorded *)
+(* a recorded token is never replaced by an issuance callback *)
+Theorem callback_keeps_recorded_token t self result : tm_token t <> [] -> tm_token (fst (deploy_token_callback t self result)) = tm_token t.
+Proof.
+  intro H. unfold deploy_token_callback. destruct result as [tok|]; [|reflexivity].
+  apply bytes_eqb_neq in H. rewrite H. reflexivity.
+Qed.
+
 Theorem deploy_refused_when_token_set t l c m n s : tm_token t <> [] -> deploy_interchain_token t l c m n s = None.
 Proof.
   intro H. unfold deploy_interchain_token. destruct (negb (has_no_esdt _)); [reflexivity|].
